@@ -44,7 +44,7 @@ class Failure(Exception):
 
 def _handler(tag):
     def cb(args, io):
-        answer = ConfirmationQuestion("Sure?", True).ask(io)
+        answer = (ConfirmationQuestion("Sure?", True).ask(io), ConfirmationQuestion("Really?", False).ask(io))
         STATE["calls"].append((tag, args.arguments(), answer))
         for stream_write in (io.write_line, io.error_line):
             stream_write("<info>L0</info>")
@@ -104,7 +104,7 @@ def _switch_tokens(q, verb, ansi, n, hv, short):
 
 def _run(app, tokens):
     out, err = BufferedOutputStream(), BufferedOutputStream()
-    inp = StringInputStream("n\n")
+    inp = StringInputStream("n\ny\n")
     del STATE["calls"][:]
     status = app.run(ArgvArgs(["app"] + tokens), inp, out, err)
     return status, out.fetch(), err.fetch()
@@ -165,7 +165,7 @@ def _case(base_i, q, verb, ansi, n, hv, short, pos, raises, rotate):
     exp_args = {"greet": {"name": "bob"}, "serve start": {"port": "80"}, "echo": {"words": ["a", "b"]}}[full_name]
     if len(calls) != 1 or calls[0][0] != full_name or calls[0][1] != exp_args:
         return False
-    if calls[0][2] != (True if n else False):         # -n: the question returns its default (yes) without reading; otherwise the typed 'n'
+    if calls[0][2] != ((True, False) if n else (False, True)):     # -n: both questions return their defaults (yes / no) without reading; otherwise the typed 'n' / 'y'
         return False
     if (status != 0) != raises:
         return False
@@ -176,7 +176,7 @@ def _case(base_i, q, verb, ansi, n, hv, short, pos, raises, rotate):
     level = verb
     import re
     strip = lambda s: re.sub(r"\x1b\[[0-9;]*m", "", s)
-    question = "Sure? (yes/no) [yes] "
+    question = "Sure? (yes/no) [yes] Really? (yes/no) [no] "
     exp_err_prefix = "" if n else question
     if not strip(err).startswith(exp_err_prefix + _lines(level, False)) and not n:
         return False
@@ -206,7 +206,7 @@ def _after_dd_case(q, verb, ansi, n, hv, short, raises, vbefore):
     status, out, err = _run(app, ["echo", "a"] + before + ["--"] + sw)
     calls = list(STATE["calls"])
     # none of the switches has any effect after '--': they are plain words; a verbosity switch right before '--' keeps its own effect
-    if len(calls) != 1 or calls[0][0] != "echo" or calls[0][1] != {"words": ["a"] + sw} or calls[0][2] is not False:
+    if len(calls) != 1 or calls[0][0] != "echo" or calls[0][1] != {"words": ["a"] + sw} or calls[0][2] != (False, True):
         return False
     if "\x1b" in out + err:
         return False
@@ -214,7 +214,7 @@ def _after_dd_case(q, verb, ansi, n, hv, short, raises, vbefore):
         return False
     if not out.startswith(_lines(vbefore, False)) or out.startswith(_lines(vbefore, False) + "L%d" % (vbefore + 1)):
         return False
-    exp = "Sure? (yes/no) [yes] " + _lines(vbefore, False)
+    exp = "Sure? (yes/no) [yes] Really? (yes/no) [no] " + _lines(vbefore, False)
     return err.startswith(exp) and not err.startswith(exp + "L%d" % (vbefore + 1))
 
 
